@@ -2,12 +2,18 @@
 
 package measurement
 
-import "math"
+import (
+	"math"
+	"strconv"
+
+	"github.com/google/pprof/profile"
+)
 
 func init() {
 	vRegister("VerifC15ScaleBytes", VerifC15ScaleBytes)
 	vRegister("VerifC15ScaleTime", VerifC15ScaleTime)
 	vRegister("VerifC15Unknown", VerifC15Unknown)
+	vRegister("VerifC15ScaleProfiles", VerifC15ScaleProfiles)
 }
 
 type vUnitT struct {
@@ -17,8 +23,8 @@ type vUnitT struct {
 }
 
 var vByteUnits = []vUnitT{
-	{"B", "B", 1}, {"kilobytes", "kB", 1 << 10}, {"PB", "PB", 1 << 50}, {"MB", "MB", 1 << 20}, {"GB", "GB", 1 << 30}, {"TB", "TB", 1 << 40},
-	{"byte", "B", 1}, {"bytes", "B", 1}, {"KB", "kB", 1 << 10}, {"kB", "kB", 1 << 10}, {"Megabyte", "MB", 1 << 20}, {"gbyte", "GB", 1 << 30}, {"TBYTES", "TB", 1 << 40}, {"petabyte", "PB", 1 << 50},
+	{"B", "B", 1}, {"kilobytes", "kB", 1 << 10}, {"PB", "PB", 1 << 50}, {"MBYTES", "MB", 1 << 20}, {"GB", "GB", 1 << 30}, {"TB", "TB", 1 << 40},
+	{"byte", "B", 1}, {"bytes", "B", 1}, {"KB", "kB", 1 << 10}, {"kB", "kB", 1 << 10}, {"Megabyte", "MB", 1 << 20}, {"MB", "MB", 1 << 20}, {"gbyte", "GB", 1 << 30}, {"TBYTES", "TB", 1 << 40}, {"petabyte", "PB", 1 << 50},
 }
 
 var vTimeUnits = []vUnitT{
@@ -133,4 +139,52 @@ func VerifC15Unknown() {
 	rb, ub := Scale(v, "kB", "ms")
 	vAssert(ub == "B", "C15.cross.unit: bytes value converted into a time unit")
 	vAssert(rb == float64(v)*1024, "C15.cross.value: cross-family request changed the magnitude")
+}
+
+// VerifC15ScaleProfiles: harmonising the units of several profiles picks the
+// finest unit and preserves every profile's physical totals.
+func VerifC15ScaleProfiles() {
+	units := []vUnitT{{"ns", "ns", 1}, {"us", "us", 1e3}, {"ms", "ms", 1e6}, {"s", "s", 1e9}, {"nanoseconds", "ns", 1}, {"SECONDS", "s", 1e9}}
+	k := 2 + vChoice("k", vBound("c15.profiles", 2))
+	var ps []*profile.Profile
+	var us []vUnitT
+	var vals []int64
+	finest := 0
+	for i := 0; i < k; i++ {
+		u := units[vChoice("unit"+strconv.Itoa(i), vBound("c15.punits", 4))]
+		us = append(us, u)
+		if u.factor < us[finest].factor {
+			finest = i
+		}
+		// values from a pool (products with 10^k are out of the solver's reach; the subject is the unit choice)
+		v := []int64{1500, -3, 7, 1 << 40}[vChoice("v"+strconv.Itoa(i), 4)]
+		vals = append(vals, v)
+		ps = append(ps, &profile.Profile{
+			SampleType: []*profile.ValueType{{Type: "cpu", Unit: u.spell}},
+			Sample:     []*profile.Sample{{Value: []int64{v}}, {Value: []int64{1}}},
+		})
+	}
+	if err := ScaleProfiles(ps); err != nil {
+		vAssert(false, "C15.scaleprofiles.err: compatible units were rejected")
+		return
+	}
+	for i, p := range ps {
+		got, _ := Scale(1, p.SampleType[0].Unit, us[finest].canon)
+		vAssert(got == 1, "C15.scaleprofiles.unit: the common unit is not the finest unit of the inputs")
+		ratio := us[i].factor / us[finest].factor
+		var want int64
+		if ratio == 1 {
+			want = vals[i]
+		} else {
+			want = int64(math.Round(float64(vals[i]) * ratio))
+		}
+		found := false
+		for _, s := range p.Sample {
+			if s.Value[0] == want {
+				found = true
+			}
+		}
+		vAssert(vOr(found, want == 0), "C15.scaleprofiles.total: a profile's values were not converted by the exact ratio of the units")
+		vObserve(p.SampleType[0].Unit)
+	}
 }
